@@ -1457,6 +1457,8 @@ def _find_helper(
     kwargs['normalized'] = bool(normalize)
 
     forms = lemmatize(form, pos) if lemmatize else {}
+    # an empty set of forms would match any form
+    forms = {_pos: _forms for _pos, _forms in forms.items() if _forms}
     # if no lemmatizer or word not covered by lemmatizer, back off to
     # the original form and pos
     if not forms:
